@@ -279,12 +279,12 @@ theorem matchLoop_ok (fuel : Nat) (incr : Bool) (bs ss : List Tick)
           split
           · obtain ⟨r, hr, r1, r2⟩ := ih bts (st :: sts) hbts hs
             rw [hr]
-            exact ⟨⟨bt :: r.buys, r.sells, r.q, r.last⟩, rfl, ⟨TickReach.refl bt, r1⟩, r2⟩
+            exact ⟨⟨bt :: r.buys, r.sells, r.q, r.last, r.lossless⟩, rfl, ⟨TickReach.refl bt, r1⟩, r2⟩
           · rename_i hbo
             split
             · obtain ⟨r, hr, r1, r2⟩ := ih (bt :: bts) sts hb hsts
               rw [hr]
-              exact ⟨⟨r.buys, st :: r.sells, r.q, r.last⟩, rfl, r1, ⟨TickReach.refl st, r2⟩⟩
+              exact ⟨⟨r.buys, st :: r.sells, r.q, r.last, r.lossless⟩, rfl, r1, ⟨TickReach.refl st, r2⟩⟩
             · rename_i hso
               have hbo' : 0 < totalMatchable bt.orders p := by omega
               have hso' : 0 < totalMatchable st.orders p := by omega
@@ -311,12 +311,12 @@ theorem matchLoop_ok (fuel : Nat) (incr : Bool) (bs ss : List Tick)
                 · simp only [c1, c2, if_true]
                   obtain ⟨r, hr, r1, r2⟩ := ih bts sts hbts hsts
                   rw [hr]
-                  exact ⟨⟨_, _, _, _⟩, rfl, ⟨rbt, r1⟩, ⟨rst, r2⟩⟩
+                  exact ⟨⟨_, _, _, _, _⟩, rfl, ⟨rbt, r1⟩, ⟨rst, r2⟩⟩
                 · simp only [c1, c2, if_true, if_false]
                   obtain ⟨r, hr, r1, r2⟩ := ih bts ({ st with orders := sos } :: sts) hbts
                     (fun t ht => by rcases List.mem_cons.mp ht with rfl | ht; exact hst'; exact hsts t ht)
                   rw [hr]
-                  refine ⟨⟨_, _, _, _⟩, rfl, ⟨rbt, r1⟩, ?_⟩
+                  refine ⟨⟨_, _, _, _, _⟩, rfl, ⟨rbt, r1⟩, ?_⟩
                   show All2 TickReach (st :: sts) r.sells
                   cases hrs : r.sells with
                   | nil => rw [hrs] at r2; exact r2.elim
@@ -326,7 +326,7 @@ theorem matchLoop_ok (fuel : Nat) (incr : Bool) (bs ss : List Tick)
                 obtain ⟨r, hr, r1, r2⟩ := ih ({ bt with orders := bos } :: bts) sts
                   (fun t ht => by rcases List.mem_cons.mp ht with rfl | ht; exact hbt'; exact hbts t ht) hsts
                 rw [hr]
-                refine ⟨⟨_, _, _, _⟩, rfl, ?_, ⟨rst, r2⟩⟩
+                refine ⟨⟨_, _, _, _, _⟩, rfl, ?_, ⟨rst, r2⟩⟩
                 show All2 TickReach (bt :: bts) r.buys
                 cases hrb : r.buys with
                 | nil => rw [hrb] at r1; exact r1.elim
